@@ -1,0 +1,147 @@
+//go:build verif
+// +build verif
+
+package jmespath
+
+// Observation hooks for the verification harness in /verif.  This file is
+// only compiled with the build tag "verif"; it adds code and changes none.
+
+import (
+	"encoding/hex"
+	"math"
+	"reflect"
+	"sort"
+	"strconv"
+	"strings"
+)
+
+// VerifCanon renders a value in a canonical, order-defined text form:
+// numbers as IEEE bit patterns, strings hex-encoded, objects sorted by key,
+// nil slices and maps distinguished from empty ones, anything that is not a
+// JSON value rendered by its Go kind.
+func VerifCanon(v interface{}) string {
+	var sb strings.Builder
+	verifCanon(&sb, v)
+	return sb.String()
+}
+
+func verifCanon(sb *strings.Builder, v interface{}) {
+	switch t := v.(type) {
+	case nil:
+		sb.WriteString("null")
+	case bool:
+		if t {
+			sb.WriteString("true")
+		} else {
+			sb.WriteString("false")
+		}
+	case float64:
+		sb.WriteString("n")
+		sb.WriteString(strconv.FormatUint(math.Float64bits(t), 16))
+	case string:
+		sb.WriteString("s")
+		sb.WriteString(hex.EncodeToString([]byte(t)))
+	case []interface{}:
+		if t == nil {
+			sb.WriteString("nil[]")
+			return
+		}
+		sb.WriteString("[")
+		for i, e := range t {
+			if i > 0 {
+				sb.WriteString(",")
+			}
+			verifCanon(sb, e)
+		}
+		sb.WriteString("]")
+	case map[string]interface{}:
+		if t == nil {
+			sb.WriteString("nil{}")
+			return
+		}
+		keys := make([]string, 0, len(t))
+		for k := range t {
+			keys = append(keys, k)
+		}
+		sort.Strings(keys)
+		sb.WriteString("{")
+		for i, k := range keys {
+			if i > 0 {
+				sb.WriteString(",")
+			}
+			sb.WriteString("s")
+			sb.WriteString(hex.EncodeToString([]byte(k)))
+			sb.WriteString(":")
+			verifCanon(sb, t[k])
+		}
+		sb.WriteString("}")
+	default:
+		sb.WriteString("?")
+		sb.WriteString(reflect.TypeOf(v).Kind().String())
+	}
+}
+
+var verifCmpNames = map[tokType]string{
+	tEQ: "EQ", tNE: "NE", tLT: "LT", tLTE: "LTE", tGT: "GT", tGTE: "GTE",
+}
+
+// VerifDumpAST renders an AST as a canonical s-expression.
+func VerifDumpAST(node ASTNode) string {
+	var sb strings.Builder
+	verifDump(&sb, node)
+	return sb.String()
+}
+
+// VerifCompiledAST returns the AST held by a compiled expression.
+func VerifCompiledAST(jp *JMESPath) ASTNode {
+	return jp.ast
+}
+
+func verifDump(sb *strings.Builder, node ASTNode) {
+	sb.WriteString("(")
+	sb.WriteString(strings.TrimPrefix(node.nodeType.String(), "AST"))
+	switch node.nodeType {
+	case ASTField, ASTFunctionExpression, ASTKeyValPair:
+		if s, ok := node.value.(string); ok {
+			sb.WriteString(" ")
+			sb.WriteString("s" + hex.EncodeToString([]byte(s)))
+		} else {
+			sb.WriteString(" ?badname")
+		}
+	case ASTLiteral:
+		sb.WriteString(" ")
+		verifCanon(sb, node.value)
+	case ASTIndex:
+		if i, ok := node.value.(int); ok {
+			sb.WriteString(" ")
+			sb.WriteString(strconv.Itoa(i))
+		} else {
+			sb.WriteString(" ?badindex")
+		}
+	case ASTSlice:
+		if parts, ok := node.value.([]*int); ok {
+			for _, p := range parts {
+				if p == nil {
+					sb.WriteString(" _")
+				} else {
+					sb.WriteString(" ")
+					sb.WriteString(strconv.Itoa(*p))
+				}
+			}
+		} else {
+			sb.WriteString(" ?badslice")
+		}
+	case ASTComparator:
+		if t, ok := node.value.(tokType); ok {
+			sb.WriteString(" ")
+			sb.WriteString(verifCmpNames[t])
+		} else {
+			sb.WriteString(" ?badcmp")
+		}
+	}
+	for _, c := range node.children {
+		sb.WriteString(" ")
+		verifDump(sb, c)
+	}
+	sb.WriteString(")")
+}
